@@ -146,3 +146,32 @@ func H_C17_newpeer() {
 	vReach("returned")
 	vAssert(err != nil && conn.closed, "a connection handed to a dead torrent is refused and closed")
 }
+
+// H_C20_getbyname: the lookup the FUSE root uses: with two torrents registered (names of <= 2
+// symbolic bytes, hashes differing in a symbolic first byte), GetByName(name) returns nil exactly
+// when no torrent has that name, and otherwise a torrent with that name - the one with the
+// smallest info-hash when both have it (deterministic).
+func H_C20_getbyname() {
+	h0 := hash.Hash([]byte{vU8("hb0"), 1, 2, 3, 4, 5, 6, 7, 8, 9, 10, 11, 12, 13, 14, 15, 16, 17, 18, 19})
+	h1 := hash.Hash([]byte{vU8("hb1"), 1, 2, 3, 4, 5, 6, 7, 8, 9, 10, 11, 12, 13, 14, 15, 16, 17, 18, 19})
+	vAssume(h0[0] != h1[0])
+	t0 := VRegister(h0, vString("n0", 2), nil, 100)
+	t1 := VRegister(h1, vString("n1", 2), nil, 100)
+	name := vString("name", 2)
+	t := GetByName(name)
+	m0, m1 := t0.Name == name, t1.Name == name
+	if t == nil {
+		vReach("absent")
+		vAssert(!m0 && !m1, "a name that some torrent has resolves")
+	} else {
+		vReach("found")
+		vAssert(t.Name == name, "a lookup resolves only to a torrent with that name")
+		vAssert(t == t0 || t == t1, "a lookup resolves to a listed torrent")
+		if m0 && m1 {
+			vReach("ambiguous")
+			vAssert((t == t0) == (h0[0] < h1[0]), "of two torrents with the same name the one with the smaller hash is chosen")
+		}
+	}
+	del(h0)
+	del(h1)
+}
